@@ -273,6 +273,19 @@ carquet_status_t carquet_read_data_page_v1(
         num_values = (int32_t)max_values;
     }
 
+    /* Levels are only decoded from the RLE/bit-packed hybrid. The deprecated
+     * BIT_PACKED level encoding has a different layout (no length prefix,
+     * MSB-first packing); reading it as RLE would return wrong levels.
+     * The declared encoding is irrelevant when the column has no levels. */
+    if ((reader->max_rep_level > 0 &&
+         header->repetition_level_encoding != CARQUET_ENCODING_RLE) ||
+        (reader->max_def_level > 0 &&
+         header->definition_level_encoding != CARQUET_ENCODING_RLE)) {
+        CARQUET_SET_ERROR(error, CARQUET_ERROR_INVALID_ENCODING,
+            "Unsupported level encoding (only RLE is supported)");
+        return CARQUET_ERROR_INVALID_ENCODING;
+    }
+
     /* Decode repetition levels if needed */
     if (reader->max_rep_level > 0 && rep_levels) {
         /* Read 4-byte length prefix */
